@@ -27,7 +27,7 @@ import functools
 import operator
 
 from . import sym
-from .sym import (SInt, SBool, SBuf, Unsupported, PathEnd, EngineError, is_sym, deep_sym,
+from .sym import (SInt, SBool, SBuf, Unsupported, PathEnd, PathDone, EngineError, is_sym, deep_sym, And, engine,
                   mk_bool, mk_int, zint, zbool, z3)
 
 
@@ -67,6 +67,15 @@ class IFunc(object):
         return types.MethodType(self, obj)
 
 
+def _assigned_names(stmts):
+    out = set()
+    for b in stmts:
+        for n in ast.walk(b):
+            if isinstance(n, ast.Name) and isinstance(n.ctx, ast.Store):
+                out.add(n.id)
+    return out
+
+
 class Frame(object):
     __slots__ = ('locals', 'scopes', 'globs', 'globals_decl', 'nonlocal_decl', 'fname', 'module')
 
@@ -94,6 +103,47 @@ _CMPOPS = {
 }
 
 
+import contextlib as _contextlib
+
+def _cm_probe():
+    yield
+
+_CM_HELPER_CODE = _contextlib.contextmanager(_cm_probe).__code__
+
+
+class _ICtx(object):
+    """Context manager over an interpreted generator (contextlib.contextmanager semantics)."""
+    _pyvc_trusted = True
+
+    def __init__(self, gen):
+        self.gen = gen
+
+    def __enter__(self):
+        try:
+            return next(self.gen)
+        except StopIteration:
+            raise RuntimeError("generator didn't yield")
+
+    def __exit__(self, typ, value, tb):
+        if typ is None:
+            try:
+                next(self.gen)
+            except StopIteration:
+                return False
+            raise RuntimeError("generator didn't stop")
+        if value is None:
+            value = typ()
+        try:
+            self.gen.throw(value)
+        except StopIteration as e:
+            return e is not value
+        except BaseException as e:
+            if e is value:
+                return False
+            raise
+        raise RuntimeError("generator didn't stop after throw()")
+
+
 class Interp(object):
     """AST interpreter bound to one repository root."""
 
@@ -106,6 +156,11 @@ class Interp(object):
         self._nodecache = {}
         self.summaries = {}    # native callable (id) -> handler(interp, args, kwargs)
         self.contracts = {}    # underlying function object -> handler(interp, args, kwargs)
+        # loop contracts: function name -> dict(invariant=f(locals), variant=f(locals),
+        #   iteration=f(before, after, yields), exit=f(locals)); the while loops of that function
+        #   are then checked by invariant (establish / havoc / one arbitrary iteration / exit)
+        self.loop_contracts = {}
+        self.used_loop_contracts = set()
         self.used = {}         # qualified name -> source hash (functions interpreted)
         self.used_contracts = set()
         self.used_summaries = set()
@@ -224,6 +279,12 @@ class Interp(object):
         if isinstance(f, IFunc):
             return self._run(f.node, f.defaults, f.kw_defaults, f.scopes, f.globs,
                              f.__name__, f.__module__, args, kwargs)
+        # @contextmanager on a repository generator function: interpret the generator
+        w = getattr(under, '__wrapped__', None)
+        if (w is not None and getattr(under, '__code__', None) is _CM_HELPER_CODE
+                and isinstance(w, types.FunctionType) and self.is_repo_function(w) and w not in self.no_interp):
+            a = ([selfarg] if selfarg is not None else []) + list(args)
+            return _ICtx(self.call(w, a, kwargs))
         if isinstance(f, types.MethodType):
             if isinstance(under, IFunc) or self.is_repo_function(under):
                 return self.call(under, [selfarg] + list(args), kwargs)
@@ -414,6 +475,8 @@ class Interp(object):
                 yield from self.gexec_block(s.body, frame)
             else:
                 yield from self.gexec_block(s.orelse, frame)
+        elif isinstance(s, ast.While) and frame.fname in self.loop_contracts and engine().mode == 'symbolic':
+            yield from self._gwhile_contract(s, frame, self.loop_contracts[frame.fname])
         elif isinstance(s, ast.While):
             broke = False
             while self.truth(self.eval(s.test, frame)):
@@ -466,6 +529,41 @@ class Interp(object):
             yield from self._gwith(s, 0, frame)
         else:
             raise Unsupported('yield inside %s' % type(s).__name__)
+
+    def _gwhile_contract(self, s, frame, lc):
+        """A while loop checked against its contract instead of being unrolled:
+        the invariant holds on entry; from an arbitrary state satisfying it (every variable the
+        body assigns is havocked) one iteration preserves it and decreases the variant; after
+        the loop the invariant and the negated condition hold. Sound for every number of
+        iterations; the iteration path ends after its obligations (PathDone)."""
+        E = engine()
+        L = frame.locals
+        tag = 'loop in %s' % frame.fname
+        if s.orelse or any(isinstance(n, (ast.Break, ast.Continue, ast.Return)) for b in s.body for n in ast.walk(b)):
+            raise Unsupported('loop contract on a loop with break/continue/return/else')
+        self.used_loop_contracts.add(frame.fname)
+        E.prove(lc['invariant'](L), tag + ': invariant holds on entry')
+        for v in sorted(_assigned_names(s.body)):
+            if v in L:
+                if isinstance(L[v], bool) or not isinstance(L[v], (int, SInt)):
+                    raise Unsupported('loop contract: variable %s is not an integer' % v)
+                L[v] = E.fresh('%s.%s' % (frame.fname, v))
+        E.assume(lc['invariant'](L))
+        if self.truth(self.eval(s.test, frame)):
+            before = dict(L)
+            ys = []
+            for y in self.gexec_block(s.body, frame):
+                ys.append(y)
+                yield y
+            E.prove(lc['invariant'](L), tag + ': invariant preserved by an arbitrary iteration')
+            if lc.get('variant') is not None:
+                v0, v1 = lc['variant'](before), lc['variant'](L)
+                E.prove(And(v0 >= 0, v1 < v0), tag + ': variant is non-negative and decreases (termination)')
+            if lc.get('iteration') is not None:
+                lc['iteration'](before, L, ys)
+            raise PathDone('arbitrary iteration of ' + tag + ' checked')
+        if lc.get('exit') is not None:
+            lc['exit'](L)
 
     def _gwith(self, s, i, frame):
         if i == len(s.items):
